@@ -39,7 +39,7 @@ def safe_tp_range(p, r):
     (only days + 719468 overflow for the last 719468 values of time_point<days,int64> is left)"""
     lo, hi = K.RMIN[r], K.RMAX[r]
     if p == "d":
-        hi = min(hi, 2 ** 63 - 1 - 719468)
+        pass  # K35 repaired in /repo 2854d54: the whole range is UB-free
     return lo, hi
 
 
